@@ -26,6 +26,7 @@ ASSUMPTIONS = ['titles are drawn from a pool chosen by reading the code (ordinar
                'containing a slash, dot-dot); the solver chooses shape and titles',
                'results are stub TestResults represented without templates (anchor + description); figures are outside',
                'sections with the same chain of titles share one page (their texts are concatenated): accepted as long as every result appears once',
+               'optionally (solver-chosen) the same Rst object formats a second, unrelated report between formatting and writing the first',
                'a toctree entry is resolved relative to the directory of the page that contains it (Sphinx semantics)']
 OUTSIDE = ['figure files (matplotlib)', "Sphinx's own interpretation of exotic titles", 'titles outside the pool']
 EXPLANATION = ('bounded symbolic execution (symrun + z3: solver-chosen tree shapes and titles) of the real report writer on a temporary '
@@ -81,6 +82,11 @@ def make_harness(k):
             raised = None
             try:
                 fmt = rst.format_report(report=root, author='me', version='0')
+                if ex.choice(2, 'another-report-formatted-before-writing') == 1:
+                    # the same Rst object formats another report before the first one is written
+                    other = TestReport(title='OTHER-ROOT', text='other text', content=[
+                        _mk_result('other'), TestReport(title='OTHER-SECTION', text='t', content=[_mk_result('other2')])])
+                    rst.format_report(report=other, author='me', version='0')
                 fmt.write(out)
             except ValueError as e:
                 raised = e
